@@ -247,6 +247,8 @@ func main() {
 	factsLocks()
 	factsLoops()
 	factsUpstream()
+	factsProxyTimeout()
+	factsLRUCallbacks()
 
 	out.WriteString("\nend Pike.Facts\n")
 	if outPath == "" {
@@ -375,6 +377,26 @@ func factsDispatcher() {
 	})
 	if zonesVar == "" || capVar == "" {
 		out.WriteString("def dispatcherSizes_shape : String := \"unknownShape:NewDispatcher list/cap\"\ndef dispatcherSizes (optionSize : Int) : Int × Int := default\n")
+		return
+	}
+	// both must be variables of the size computation (assigned before the list is allocated): a limit computed per
+	// shard inside the loop is not something this translation covers
+	assigned := map[string]bool{}
+	for _, st := range fd.Body.List {
+		if stop(st) {
+			break
+		}
+		ast.Inspect(st, func(n ast.Node) bool {
+			if as, ok := n.(*ast.AssignStmt); ok {
+				for _, l := range as.Lhs {
+					assigned[nsrc(l)] = true
+				}
+			}
+			return true
+		})
+	}
+	if !assigned[zonesVar] || !assigned[capVar] {
+		out.WriteString("def dispatcherSizes_shape : String := \"unknownShape:NewDispatcher per-shard limit\"\ndef dispatcherSizes (optionSize : Int) : Int × Int := default\n")
 		return
 	}
 	out.WriteString(transFunc("dispatcherSizes", "(optionSize : Int)", names, fd.Body.List, stop, "Int × Int", "("+zonesVar+", "+capVar+")"))
@@ -647,6 +669,10 @@ func factsCache() {
 		afterRecv := false
 		ast.Inspect(fd.Body, func(n ast.Node) bool {
 			switch x := n.(type) {
+			case *ast.SelectStmt:
+				// the waiter must wait with a plain receive: leaving the wait by another select case would
+				// leave its channel registered with nobody receiving
+				shape = "waitInSelect"
 			case *ast.UnaryExpr:
 				if x.Op == token.ARROW {
 					afterRecv = true
